@@ -67,6 +67,11 @@ def oracle(c, r):
             if r[0] == "err" and r[1] == "OutOfBounds":
                 return None
             return Failure(dict(sig, clause="out-of-bounds-reported"), f"leaving the old span under reportingMode='error' gave {r[:2]}")
+        if r[0] == "err" and r[1] == "TextgridStateError" and t["k"] == "I" and any(e[0] + c["o"] >= e[1] + c["o"] for e in t["es"]):
+            # the one refusal rounding can cause (layer R, editTimestamps_refuses_iff): an entry a few ulps long whose two
+            # ends are shifted onto one float; a praatio error, as C05 demands.  Met by the living histories, whose
+            # mutations insert such entries.
+            return None
         if r[0] == "err":
             return Failure(dict(sig, clause="no-error", exc=r[1]), f"editTimestamps raised {r[1]}")
         res = r[1]
@@ -81,6 +86,8 @@ def oracle(c, r):
         return None
     if op in ("iappend", "pappend"):
         u = c["other"]
+        if r[0] == "err" and r[1] == "TextgridStateError" and t["k"] == "I" and any(e[0] + t["hi"] >= e[1] + t["hi"] for e in u["es"]):
+            return None     # as above: an entry of B a few ulps long collapses when it is shifted by A's end time
         if r[0] == "err":
             return Failure(dict(sig, clause="no-error", exc=r[1]), f"appendTier raised {r[1]}")
         res = r[1]
